@@ -29,7 +29,7 @@ RULE = ("random release tables (1-12 rows, 1-5 distinct times on the model time 
         "events at different steps or rows outside the window or mult != 1; distinct by (mode, direction, step/mult pattern).")
 MANDATORY = ["discrete_forward", "discrete_reversed", "continuous_forward", "continuous_reversed",
              "row_before_start", "row_at_or_after_stop", "mult_zero", "mult_gt1", "several_rows_per_time", "lonlat_position",
-             "names_in_config", "particle_variable_column", "release_hook_events"]
+             "names_in_config", "particle_variable_column", "release_hook_events", "time_typed_column_values"]
 ASSUMPTIONS = ["release times on the model time grid and sorted in simulation order (as the property quantifies)",
                "still water: particles stay where they were released, so the first appearance shows the release position",
                "at least one particle is released inside the window (empty windows belong to C20)"]
@@ -77,6 +77,8 @@ def gen_case(seed: int, idx: int) -> dict[str, Any]:
         extras.append(["rid", "int", "instance" if rng.random() < 0.6 else "particle"])
     if rng.random() < 0.5:
         extras.append(["wgt", "float", "instance" if rng.random() < 0.5 else "particle"])
+    if rng.random() < 0.35:
+        extras.append(["hatch", "time", "particle"])  # a time-typed extra column (besides release_time)
     rel_time_pv = rng.random() < 0.5
     imax, jmax = 12, 10
     cols = ["release_time"] + (["mult"] if use_mult else []) + (["lon", "lat"] if lonlat else ["X", "Y"]) + ["Z"] + [e[0] for e in extras]
@@ -101,6 +103,8 @@ def gen_case(seed: int, idx: int) -> dict[str, Any]:
                 if e[0] == "rid":
                     rid += 1
                     row.append(rid)
+                elif e[1] == "time":
+                    row.append(str(tadd(start, -int(rng.integers(0, 10**6)))))
                 else:
                     row.append(float(np.round(rng.uniform(0, 10), 4)))
             rows.append(row)
@@ -289,6 +293,14 @@ def run_case(case: dict[str, Any], wd: Path) -> dict[str, Any]:
             break
         for name, typ, kind in case["extras"]:
             got = vals[name] if kind == "instance" else (pvars[name][pid] if name in pvars and pid < len(pvars[name]) else None)
+            if typ == "time":
+                ref0 = np.datetime64(files[-1].time_units.split("since")[1].strip(), "s")
+                want_t = float((np.datetime64(d[name], "s") - ref0) / np.timedelta64(1, "s"))
+                sit["time_typed_column_values"] = sit.get("time_typed_column_values", 0) + 1
+                if got is None or abs(float(got) - want_t) > 1e-6 or "since" not in files[-1].pvar_units.get(name, ""):
+                    V.append(C.viol(f"pid {pid}: time-typed column {name} = {got} ({files[-1].pvar_units.get(name)!r}), row {e['row']} says {d[name]} = {want_t} s after the reference time"))
+                    break
+                continue
             if got is None or abs(float(got) - float(d[name])) > 1e-9:
                 V.append(C.viol(f"pid {pid}: extra column {name} ({kind}) = {got}, row {e['row']} says {d[name]}"))
                 break
